@@ -1,4 +1,5 @@
 import StoneVerif.Lemmas.RtDecode
+import StoneVerif.Lemmas.RtDecodeSound3
 /-!
 Property theorems for C06: the JSON decoder returns a value valid for the type or raises its
 validation error (`Err.verr`); nothing else escapes (`Err.crash`); every documented form is accepted
@@ -9,7 +10,7 @@ external calls `E`, every environment, every caller (`perms`) and both modes (`s
 hypothesis says otherwise.
 -/
 namespace StoneVerif.C06
-open StoneVerif.Rt
+open StoneVerif.Rt StoneVerif.Rt.DecL
 
 /-- "the decoder raised its validation error" -/
 def Rejected (r : R PyVal) : Prop := ∃ m, r = .error (.verr m)
@@ -636,5 +637,110 @@ example : decode E0 env0 [] false (.tree {} "ns.R") (.arr []) = verr "expected o
     decode E0 env0 [] false (.union {} "ns.U") (.int 3) = verr "expected string or object" ∧
     decode E0 env0 [] false (.map {} (.str {} none none none) (.list {} (.struct {} "ns.S") none none))
       (.obj [("k", .arr [.arr []])]) = verr "expected object" := ⟨rfl, rfl, rfl⟩
+
+/-! ## 4. What is returned is valid for the type -/
+
+/-
+The statement at full strength,
+
+    theorem decode_sound : envWF env → fieldFlagsWF env → tyWF env t →
+        decode E env perms strict t j = .ok v → validB E env t v = true
+
+is FALSE of the model (and of the Python it mirrors) in four ways; each has a witness below.
+ (a) `decode` (the helper) does not validate primitives, lists or maps itself: the enclosing assignment,
+     constructor or the entry point does. So the statement is about `jsonCompatObjDecode` at any type, and about
+     `decode` at struct / enumerated-subtypes / union types.
+ (b) lenient mode, enumerated-subtypes root with a catch-all, unknown `.tag`: the decoder returns an instance of
+     the root class; clause `(leafTag? env cls c).isSome` of `validB` at `.tree` fails (by design: the valid
+     value there is the base struct).
+ (c) a caller holding a permission decodes a tag omitted for that caller class: clause `publicTag?` of `validB`
+     at `.union` fails (`validB` is the validity of the permission-less view).
+ (d) a struct field whose type is an enumerated-subtypes root with no required field, absent from the document:
+     the decoder stores `Root()` (`has_default()` / `get_default()` are inherited from `bv.Struct`), which is
+     not an instance of any leaf; clause `(leafTag? env cls c).isSome` fails — in strict mode too, catch-all or
+     not. Replayed on the Python: `json_compat_obj_decode(bv.Struct(S), {}, strict=True)` returns
+     `S(r=R())` and `json_compat_obj_encode` of that value raises AssertionError.
+The proved statements exclude exactly (b), (c), (d).
+-/
+
+/-- `json_compat_obj_decode`, any well-formed type: what is returned is valid for the type (`validB`: deep
+validity, required fields present, union payloads valid). Hypotheses: strict mode or no catch-all trees (b);
+every tag the caller sees is public, e.g. `perms = []` (c); no enumerated-subtypes root without required fields is
+a field type (d). -/
+theorem decode_sound_partial (E : Ext) (env : Env) (perms : List String) (strict : Bool) (t : PTy) (j : JVal)
+    (v : PyVal) (hwf : envWF env = true) (hff : fieldFlagsWF env = true) (ht : tyWF env t = true)
+    (hcat : strict = true ∨ noCatchAllTrees env = true)
+    (hvis : visibleTagsPublic env perms = true) (hdt : noDefaultedTrees env = true)
+    (h : jsonCompatObjDecode E env perms strict t j = .ok v) : validB E env t v = true :=
+  jsonCompatObjDecode_valid E env perms strict hwf hff hcat hvis hdt t j v ht h
+
+/-- The recursive helper at user-defined types (struct, enumerated subtypes, union — at any nesting depth, since
+`decode` is one recursive function): what is returned is valid for the type. -/
+theorem decode_sound_user_partial (E : Ext) (env : Env) (perms : List String) (strict : Bool) (t : PTy) (j : JVal)
+    (v : PyVal) (hwf : envWF env = true) (hff : fieldFlagsWF env = true) (ht : tyWF env t = true)
+    (hu : isUserTy t = true)
+    (hcat : strict = true ∨ noCatchAllTrees env = true)
+    (hvis : visibleTagsPublic env perms = true) (hdt : noDefaultedTrees env = true)
+    (h : decode E env perms strict t j = .ok v) : validB E env t v = true :=
+  (Pre_user E env t v hu).mp (decode_pre E env perms strict hwf hff hcat hvis hdt j t ht v h)
+
+/-- For the caller without permissions the second hypothesis is free. -/
+theorem visibleTagsPublic_nil (env : Env) : visibleTagsPublic env [] = true := by
+  simp only [visibleTagsPublic, List.all_eq_true]
+  intro u _ t _
+  cases t.omitted <;> simp
+
+/-- Either outcome: a valid value or the validation error (C06's first sentence, with 3.). -/
+theorem decode_valid_or_rejected (E : Ext) (env : Env) (perms : List String) (strict : Bool) (t : PTy) (j : JVal)
+    (hwf : envWF env = true) (hff : fieldFlagsWF env = true) (ht : tyWF env t = true)
+    (hcat : strict = true ∨ noCatchAllTrees env = true)
+    (hvis : visibleTagsPublic env perms = true) (hdt : noDefaultedTrees env = true) :
+    (∃ v, jsonCompatObjDecode E env perms strict t j = .ok v ∧ validB E env t v = true) ∨
+    Rejected (jsonCompatObjDecode E env perms strict t j) := by
+  cases h : jsonCompatObjDecode E env perms strict t j with
+  | ok v => exact Or.inl ⟨v, rfl, decode_sound_partial E env perms strict t j v hwf hff ht hcat hvis hdt h⟩
+  | error e =>
+    cases e with
+    | verr m => exact Or.inr ⟨m, rfl⟩
+    | crash c => exact absurd h (jsonCompatObjDecode_no_crash E env perms strict t j hwf hff ht c)
+
+/-- non-vacuity on `env0` (which has a catch-all tree, so: strict mode) -/
+example : noDefaultedTrees env0 = true ∧ visibleTagsPublic env0 [] = true ∧ noCatchAllTrees env0 = false := by
+  decide +kernel
+example :
+    (match jsonCompatObjDecode E0 env0 [] true (.map {} (.str {} none none none) (.union {} "ns.U"))
+      (.obj [("k", .obj [(".tag", .str "s"), ("a", .int 2), ("b", .str "xy")]), ("l", .str "v")]) with
+     | .ok (.dict [(.str "k", .union "ns.U" "s" (.struct "ns.S" [("a", .int 2), ("b", .str "xy")])),
+                   (.str "l", .union "ns.U" "v" .none)]) => true
+     | _ => false) = true := by decide +kernel
+
+/-- witness (a): the helper alone does not validate a primitive; the entry point does -/
+example : decode E0 env0 [] true (.int {} "Int32" (-5) 5) (.int 99) = .ok (.int 99) ∧
+    validB E0 env0 (.int {} "Int32" (-5) 5) (.int 99) = false ∧
+    jsonCompatObjDecode E0 env0 [] true (.int {} "Int32" (-5) 5) (.int 99) = verr "not within range" :=
+  ⟨rfl, by decide +kernel, rfl⟩
+
+/-- witness (b): lenient mode, catch-all root `ns.R`, unknown subtype -/
+example : decode E0 env0 [] false (.tree {} "ns.R") (.obj [(".tag", .str "zip"), ("a", .int 1)]) =
+      .ok (.struct "ns.R" [("a", .int 1)]) ∧
+    validB E0 env0 (.tree {} "ns.R") (.struct "ns.R" [("a", .int 1)]) = false ∧
+    leafTag? env0 "ns.R" "ns.R" = none := ⟨rfl, by decide +kernel, by decide +kernel⟩
+
+/-- witness (c): the caller holds "internal" and names the tag `p` omitted for "internal" -/
+example : decode E0 env0 ["internal"] true (.union {} "ns.U") (.str "p") = .ok (.union "ns.U" "p" .none) ∧
+    validB E0 env0 (.union {} "ns.U") (.union "ns.U" "p" .none) = false ∧
+    visibleTagsPublic env0 ["internal"] = false := ⟨rfl, by decide +kernel, by decide +kernel⟩
+
+/-- witness (d): `struct T { r R2 }`, `R2` an enumerated-subtypes root (closed) whose only field is optional -/
+def fA2 : FieldDef := ⟨"a", .int { nullable := true } "Int32" (-5) 5, true, false, none, none⟩
+def env1 : Env := ⟨[⟨"ns.R2", [⟨"ns.R2", [fA2]⟩], some [(["f"], "ns.F2", false)], false⟩,
+    ⟨"ns.F2", [⟨"ns.R2", [fA2]⟩, ⟨"ns.F2", [fN]⟩], none, false⟩,
+    ⟨"ns.T", [⟨"ns.T", [⟨"r", .tree {} "ns.R2", false, true, none, none⟩]⟩], none, false⟩], []⟩
+example : envWF env1 = true ∧ fieldFlagsWF env1 = true ∧ noCatchAllTrees env1 = true ∧
+    noDefaultedTrees env1 = false := by decide +kernel
+example : decode E0 env1 [] true (.struct {} "ns.T") (.obj []) = .ok (.struct "ns.T" [("r", .struct "ns.R2" [])]) ∧
+    validB E0 env1 (.struct {} "ns.T") (.struct "ns.T" [("r", .struct "ns.R2" [])]) = false ∧
+    (∃ m, decode E0 env1 [] true (.struct {} "ns.T") (.obj [("r", .obj [])]) = .error (.verr m)) :=
+  ⟨rfl, by decide +kernel, ⟨_, rfl⟩⟩
 
 end StoneVerif.C06
